@@ -46,6 +46,8 @@ func mkErr(tok string) error {
 			plainErrs[n] = fmt.Errorf("plain error %d", n)
 		}
 		return plainErrs[n]
+	case tok == "bn": // a pause that is over already: finite, not the indefinite block of a zero Delay
+		return mqtttest.ExchangeBlock{Delay: -time.Millisecond}
 	case tok[0] == 'b':
 		return mqtttest.ExchangeBlock{Delay: time.Duration(atoi(tok[1:])) * time.Millisecond}
 	}
@@ -240,6 +242,18 @@ func (p *mocksPort) exec(f []string) (out []string) {
 	case "pubstub":
 		err := mqtttest.NewPublishStub(mkErr(f[1]))(quitChan(f[2]), []byte("m"), "t")
 		return []string{"pubstub " + errTok(err)}
+	case "pubstubh", "substubh": // one stub, several calls: <fix> <quit,quit,...>
+		var out []string
+		pub := mqtttest.NewPublishStub(mkErr(f[1]))
+		sub := mqtttest.NewSubscribeStub(mkErr(f[1]))
+		for _, q := range strings.Split(f[2], ",") {
+			if f[0] == "pubstubh" {
+				out = append(out, errTok(pub(quitChan(q), []byte("m"), "t")))
+			} else {
+				out = append(out, errTok(sub(quitChan(q), "a")))
+			}
+		}
+		return []string{f[0] + " " + strings.Join(out, ",")}
 	case "substub":
 		var fs []string
 		if f[3] != "none" {
